@@ -71,10 +71,17 @@ def cases(draw):
         total = min(total, 400)
         case["pre"] = draw(gen.compositions(total, max_parts=4)) if total else []
         case["again"] = draw(st.integers(0, 2))
+        # ... and a local refinement may be requested between the batches and Solve: it is not a global iteration,
+        # the stop rule and the reported accuracy speak about subdivided intervals only
+        case["refine_between"] = bool(case["pre"]) and draw(st.integers(0, 2)) == 0
     elif draw(st.integers(0, 5)) == 0 and params["itersLimit"] >= 4:
         # Solve with a smaller budget first, then raise SolverParameters.itersLimit to the real one and Solve again
         case["first_limit"] = draw(st.integers(1, params["itersLimit"] - 1))
     return case
+
+
+def draw_k(case):
+    return 1 + (case["params"]["itersLimit"] + len(case.get("pre", []))) % 40
 
 
 def nonfinite_body(case):
@@ -112,6 +119,16 @@ def body(case):
         if "outside of interval" not in str(e):
             raise
         return False, ["N=%d" % run.n, "float-resolution-stop"]
+    nlocal = 0
+    if case.get("refine_between") and pre:
+        import contextlib
+        a = len(run.problem.log)
+        run.problem.max_calls = None
+        with contextlib.redirect_stdout(run.out):
+            run.solver.DoLocalRefinement(draw_k(case))
+        nlocal = len(run.problem.log) - a
+        local_range = (a, a + nlocal)
+        run.problem.max_calls = limit + 3 + nlocal
     if case.get("first_limit"):
         run.sp.itersLimit = case["first_limit"]
         run.solve()
@@ -129,7 +146,7 @@ def body(case):
     if run.problem.runaway:
         fail("Solve kept evaluating the objective beyond itersLimit+3 = %d evaluations" % (limit + 3))
     hist = run.history()
-    ncalls = len(run.problem.log)
+    ncalls = len(run.problem.log) - nlocal
     n = len(hist)
     if ncalls != n:
         fail("objective evaluated %d times but the listener saw %d trials" % (ncalls, n))
@@ -174,6 +191,8 @@ def body(case):
     tie = any(d == eps for d in D)
     if case.get("first_limit"):
         classes.append("budget-raised-then-solved-again")
+    if nlocal:
+        classes.append("refined-between-batches-and-solve")
     if "pre" in case:
         classes.append("pre-batches=%s" % ("all-budget" if pre == limit else ("some" if pre else "none")))
         classes.append("solve-again=%d" % case.get("again", 0))
